@@ -271,6 +271,12 @@ func init() {
 			return
 		}
 		if down.calls == 0 {
+			if c.Attrs["mode"] == "unknown-endpoint" && !strings.HasPrefix(c.Attrs["client"], "norule-") {
+				// the path matches no configured endpoint: with an unknown-endpoint handler
+				// configured the request is its business, whatever else is wrong with it
+				c.Fail("C13.unmatched-not-delegated", "the request matches no configured endpoint but was not handed to the unknown-endpoint handler (client got HTTP %d)\n%s", rec.Status, desc)
+				return
+			}
 			// not forwarded at all (rejected or transcoded): outside this property's premise
 			c.Outcome("not-forwarded")
 			c.Note("not-forwarded")
